@@ -368,7 +368,15 @@ func (l *Lexer) Split() []*Token {
 		}
 		prev = char
 	}
-	if tokLen > 0 {
+	if strStart {
+		// The query ends inside a quoted literal: what was read is the
+		// content of that literal, byte for byte. It is not a word
+		tp := STRING
+		if strStartChar == '`' {
+			tp = NAME
+		}
+		ret = append(ret, &Token{Tp: tp, Data: l.Query[tokStart:], Pos: tokStartPos})
+	} else if tokLen > 0 {
 		curr = l.Query[tokStart : tokStart+min(tokLen, l.Length-tokStart)]
 		if token := buildToken(curr, tokStartPos); token != nil {
 			ret = append(ret, token)
